@@ -100,7 +100,9 @@ def build(debug=False):
         return Response('POST-endpoint ' + echo(request, tok, reqid, eptok, _dispatch_state, i=i))
     routes = [GET_('/m2/<i>', m2get), POST('/m2/<i>', m2post), Route('/h/<name>', h), Route('/n/<k:int>', n), POST('/p', p), Route('/nb/<v>', nb), Route('/nb/<v>', nb2), Route('/nbonly', nbonly),
               Route('/boom/<what>', boom), Route('/forbid/<who>', forbid), Route('/ret404/<item>', ret404), Route('/ctx/<c>', ctx, render_basic),
-              Route('/branch/', branch)]
+              Route('/branch/', branch),
+              # (stress part) a branch route with a binding: real traffic has an unbounded set of distinct URLs
+              Route('/br/<name>/', lambda name, request, tok: Response('br:%s|%s|%s' % (name, tok, request.path)))]
     return Application(routes, middlewares=[Tok(), EpTok()], debug=debug)
 
 
@@ -306,6 +308,62 @@ def run_pairs(spec, ctx):
     _dedupe(ctx)
 
 
+_BURST = [0]
+
+
+def run_burst(spec, ctx):
+    """A = a request for a URL that has been served many times, preempted after k steps (every k); meanwhile B serves a *burst* of
+    requests for URLs nobody asked for before (whatever the framework keeps per distinct URL grows, fills up, is trimmed ... while
+    A is parked); then A resumes.  Every response must be the one the request gets alone."""
+    app, alone = setup(False)
+    ctx.exhaustive = True
+    n = spec['burst']
+
+    def req_a():
+        r = call(app, '/br/again0/', 'GET', query='t=tokA', headers={'Accept': 'text/plain'})
+        return (r.status, r.body, repr(r.exc) if r.exc else None)
+    want_a = (200, b'br:again0|tokA|/br/again0/', None)
+
+    def req_b():
+        out = []
+        for _ in range(n):
+            _BURST[0] += 1
+            name = 'fresh%d' % _BURST[0]
+            r = call(app, '/br/%s/' % name, 'GET', query='t=tokB', headers={'Accept': 'text/plain'})
+            if (r.status, r.body, r.exc) != (200, ('br:%s|tokB|/br/%s/' % (name, name)).encode(), None):
+                out.append((name, r.status, r.body[:80], repr(r.exc)))
+        return out
+    assert req_a() == want_a and req_a() == want_a, req_a()
+    s0 = Sched(1)
+    s0.run([req_a], [])
+    na = s0.steps[0]
+    for k in range(0, na + 1, spec.get('stride', 1)):
+        case = {'burst': n, 'k': k}
+        ctx.case(case)
+        s = Sched(2)
+        try:
+            results, errors = s.run([req_a, req_b], [(0, k), (1, 1 << 60)])
+        except Deadlock as e:
+            ctx.event('inconclusive-scheduler-stall')
+            continue
+        ctx.requests += 1 + n
+        what = 'A = GET /br/again0/ (served many times before) preempted after %d of %d steps by a burst of %d requests for new URLs' % (k, na, n)
+        try:
+            if errors[0] is not None or errors[1] is not None:
+                ctx.mismatch('thread-raised', '%s: %r' % (what, [e_ for e_ in errors if e_ is not None][0]), case)
+            elif results[0] != want_a:
+                ctx.mismatch('interference:burst', '%s: A got %r, served alone %r' % (what, results[0], want_a), case)
+            elif results[1]:
+                ctx.mismatch('interference:burst', '%s: a request of the burst got %r' % (what, results[1][0]), case)
+            elif 0 < k < na:
+                ctx.nt(['burst', n, k], sample=False)
+        except Exception as e:
+            ctx.classify_exc(e, case, 'burst')
+            break
+    ctx.event('burst-schedules-enumerated')
+    _dedupe(ctx)
+
+
 def run_pairs2(spec, ctx):
     """two preemptions: A runs k1 steps, B runs k2 steps, A runs to completion, B finishes (thorough tier; strided)"""
     for debug, (ka, kb) in spec['pairs']:
@@ -410,12 +468,23 @@ def run_stress(spec, ctx):
     def worker(i):
         j = i
         while time.time() < stop and not bad:
+            if j % 3 == 0:
+                # a URL nobody asked for before (every third request), or one of a few that come back all the time
+                name = 'u%d-%d' % (i, j) if j % 2 else 'again%d' % (j % 5)
+                r = call(app, '/br/%s/' % name, 'GET', query='t=tokBR%d' % i, headers={'Accept': 'text/plain'})
+                got = (r.status, r.body, repr(r.exc) if r.exc else None)
+                want = (200, ('br:%s|tokBR%d|/br/%s/' % (name, i, name)).encode(), None)
+                count[0] += 1
+                if got != want:
+                    bad.append(('fresh-branch-path /br/%s/' % name, got, want))
+                j += 7
+                continue
             kind = kinds[j % len(kinds)]
             j += 7
             got = requester(app, kind)()
             count[0] += 1
             if alone[kind + '#stable'] and got != alone[kind]:
-                bad.append((kind, got))
+                bad.append((kind, got, alone[kind]))
     ths = [threading.Thread(target=worker, args=(i,)) for i in range(8)]
     try:
         for t in ths:
@@ -429,9 +498,9 @@ def run_stress(spec, ctx):
     ctx.extra['stress_requests'] = count[0]
     case = {'stress': True}
     if bad:
-        kind, got = bad[0]
+        kind, got, want = bad[0]
         try:
-            ctx.mismatch('interference:stress', 'free-running stress: request %s got %r, served alone %r' % (kind, got[:2], alone[kind][:2]), case)
+            ctx.mismatch('interference:stress', 'free-running stress: request %s got %r, served alone %r' % (kind, got[:3], want[:2]), case)
         except Exception as e:
             ctx.classify_exc(e, case, 'stress')
     _check_ids(ctx)
@@ -465,6 +534,7 @@ def shards(tier, seed):
     out += [{'part': 'pairs', 'pairs': [(False, p) for p in fresh_pairs[i::nf]], 'fresh': True} for i in range(nf)]
     out += [{'part': 'sched', 'n': 80 if q else 15000} for _ in range(3)]
     out += [{'part': 'stress', 'seconds': 3 if q else 120} for _ in range(2)]
+    out += [{'part': 'burst', 'burst': 70}] if q else [{'part': 'burst', 'burst': b} for b in (70, 130, 260, 520)]
     return out
 
 
@@ -473,6 +543,8 @@ def run_shard(spec, ctx):
         run_pairs(spec, ctx)
     elif spec['part'] == 'pairs2':
         run_pairs2(spec, ctx)
+    elif spec['part'] == 'burst':
+        run_burst(spec, ctx)
     elif spec['part'] == 'sched':
         ctx.hyp(sched_strategy(), sched_body, spec['n'], kind='sched')
         _check_ids(ctx)
@@ -490,6 +562,9 @@ def replay(case, kind, ctx):
         sched_ = [(0, case['k']), (1, 1 << 60)] if 'k2' not in case else [(0, case['k']), (1, case['k2']), (0, 1 << 60), (1, 1 << 60)]
         results, errors = s.run([requester(app, ka), requester(app, kb)], sched_)
         check_results(ctx, [ka, kb], results, errors, alone, 'A=%s preempted after %d steps by B=%s' % (ka, case['k'], kb), case)
+    elif isinstance(case, dict) and 'burst' in case:
+        # (what the framework holds per distinct URL is part of the history: the whole sweep is the reproducible unit)
+        run_burst({'burst': case['burst']}, ctx)
     elif isinstance(case, list):
         sched_body(case, ctx)
     else:
